@@ -75,7 +75,10 @@ func Structured(r *rand.Rand, depth int) string {
 		tgt := []string{".a", ".b", ".", ".[0]", ".a.b", ".[]", ".a[0]", "..", ".c"}[r.IntN(9)]
 		attr := []string{`alias = "x"`, `alias = "nope"`, `alias |= "a"`, `anchor = "x"`, `anchor = ""`, `tag = "!!map"`, `tag = "!!seq"`, `tag = "!!int"`,
 			`tag = "!!null"`, `tag = "!!merge"`, `tag = "!!binary"`, `tag = "!!timestamp"`, `tag = ""`, `style = "flow"`, `style = "literal"`, `style = "nope"`,
-			`line_comment = "\n"`, `head_comment = "#"`, `head_comment = "\n\n"`, `foot_comment = "a\n#b"`, `line_comment |= .`, `key = "k"`}[r.IntN(22)]
+			`line_comment = "\n"`, `head_comment = "#"`, `head_comment = "\n\n"`, `foot_comment = "a\n#b"`, `line_comment |= .`, `key = "k"`,
+			// attribute texts that are not valid UTF-8
+			`line_comment = ("/w==" | @base64d)`, `tag = ("/w==" | @base64d)`, `head_comment = ("gICA" | @base64d)`, `anchor = ("/w==" | @base64d)`, `foot_comment |= ("wyg=" | @base64d)`,
+			`style = ("/w==" | @base64d)`, `alias = ("/w==" | @base64d)`}[r.IntN(29)]
 		if r.IntN(3) == 0 {
 			// ... or compared with itself / others (deep equality follows what the node points at)
 			return "(" + tgt + " " + attr + ") | " + []string{". - .", "[.a] - [.a]", "[.[]] | unique", "[.a, .b] - [.a]", ".a - .a", "[.] - [.]", "[.[]] - [.[0]]", ". == .", "[.a] | contains([.a])"}[r.IntN(9)]
